@@ -659,6 +659,10 @@ package transaction
 //@   prop C03 C04
 //@   may-panic
 //@   opaque-callee SetRPCError getDetail MergePrewriteReqDetails GetStoreAddr GetID run GetGlobalConfig tryUpdate get
+// the minimum commit timestamp a store returns for an async-commit prewrite is folded into the manager WITH the committer's
+// access level (execute has raised the required level: an update made with a lower one is silently dropped, and the commit
+// timestamp would stay below the min-commit-ts written into the locks)
+//@   at call(tryUpdate) assert asowner: arg_writeAccess == twoPCAccess && arg_newValue == prewriteResp.MinCommitTs
 //@   ensures fallback1pc: result == nil && old(handler.committer.useOnePC) > 0 && prewriteResp.OnePcCommitTs == 0 ==> handler.committer.useOnePC == 0 && handler.committer.useAsyncCommit == 0
 //@   ensures onepc: result == nil && old(handler.committer.useOnePC) > 0 && prewriteResp.OnePcCommitTs != 0 ==> handler.committer.onePCCommitTS == prewriteResp.OnePcCommitTs
 //@   ensures fallbackasync: result == nil && old(handler.committer.useOnePC) == 0 && old(handler.committer.useAsyncCommit) > 0 && prewriteResp.MinCommitTs == 0 && !handler.committer.testingKnobs.noFallBack ==> handler.committer.useAsyncCommit == 0
